@@ -229,16 +229,18 @@ class Signal(object):
             name = name[:MAX_NAME_LENGTH] + "..."
         output = Signal(name)
 
-        gen = AndSignals(output, 2)
+        gen = AndSignals(output, 2, (self, other))
         self.then(gen.done)
         other.then(gen.done)
+        # output KEEPS gen, AND SO THE OPERANDS, ALIVE UNTIL IT IS TRIGGERED
+        output.then(gen.cleanup)
         return output
 
 
 class AndSignals(object):
-    __slots__ = ["signal", "remaining", "locker"]
+    __slots__ = ["signal", "remaining", "locker", "dependencies"]
 
-    def __init__(self, signal, count):
+    def __init__(self, signal, count, dependencies=None):
         """
         CALL signal.go() WHEN done() IS CALLED count TIMES
         :param signal:
@@ -246,10 +248,14 @@ class AndSignals(object):
         :return:
         """
         self.signal = signal
+        self.dependencies = dependencies
         self.locker = _allocate_lock()
         self.remaining = count
         if not count:
             self.signal.go()
+
+    def cleanup(self):
+        self.dependencies = None
 
     def done(self):
         with self.locker:
